@@ -240,6 +240,13 @@ def check(ctx):
                     distinct.add((mtype, code, p, si))
                     rec(one(f, suf), dict(kind="types", fields=f[:7] + (("payload_len", p),), suffix=suf))
     samples.add(dict(kind="types", mtype=0x81, code=9, payload_len=65529, suffix="second message"), "b")
+    # (b') every payload length 0..4096 (thorough: ..16384) with one header, followed by a second message
+    big = payload(16384)
+    for p in range(0, 16385 if ctx.thorough else 4097):
+        f = (0x0102, 0x0304, 0x0506, 0x0708, 0x09, 0x00, 0, big[:p])
+        n += 1
+        distinct.add(("len", p))
+        rec(one(f, second), dict(kind="types", fields=f[:7] + (("payload_len", p),), suffix=second))
     # (c) datagrams
     maxlen = 4 if ctx.thorough else 3
     nd = 0
